@@ -28,8 +28,9 @@ REQUIRED = ("repeat_generations_compared", "dynamic_config_with_adhoc_field", "s
             "methods_with_return_annotation", "schemas_with_configtype_field")
 ASSUMPTIONS = ["functions always name their first (configuration) parameter; positional-only parameters are not generated"]
 ANNOTATIONS = ["", "", ": int", ": str", ": float", ": typing.Optional[int]", ": typing.List[str]", ": 'Config'", ": None",
-               ": typing.Dict[str, typing.Any]", ": bool"]
-RETURNS = ["", "", " -> int", " -> str", " -> None", " -> typing.List[int]", " -> 'Config'", " -> typing.Optional[str]", " -> bool"]
+               ": typing.Dict[str, typing.Any]", ": bool", ": LocalCls", ": Outer", ": Outer.Inner", ": bytes"]
+RETURNS = ["", "", " -> int", " -> str", " -> None", " -> typing.List[int]", " -> 'Config'", " -> typing.Optional[str]", " -> bool",
+           " -> LocalCls", " -> Outer.Inner"]
 
 
 def gen_method(rng, key):
@@ -230,7 +231,7 @@ def run(case, ctx, res):
         if fn is None:
             res.viol("M-stub", "method-missing", "stub has no method %r (has %r)" % (m["key"], sorted(funcs)))
             return
-        glb = {"typing": __import__("typing")}
+        glb = {"typing": __import__("typing"), "Outer": spec.Outer, "LocalCls": spec.LOCAL_CLS}
         exec(m["params"]["source"], glb)  # noqa: S102
         sig = inspect.signature(glb["f"])
         params = list(sig.parameters.values())[1:]
